@@ -147,6 +147,29 @@ fn slot_write(iso: &Iso, t: u64, sweep: u64, block: u64, running: u64, beat: u64
     b[24..32].copy_from_slice(&beat.to_le_bytes());
     let _ = iso.file.write_at(&b, (t % NSLOTS) * SLOT);
 }
+thread_local! {
+    /// (slot, sweep, block, beat, calls) of the block this thread is running
+    static CUR: std::cell::Cell<(u64, u64, u64, u64, u64)> = const { std::cell::Cell::new((u64::MAX, 0, 0, 0, 0)) };
+}
+/// Called from inner loops: every 128 calls the thread's progress slot is refreshed, so that the
+/// supervising parent can tell a long block from a stalled one.
+#[inline]
+pub fn heartbeat() {
+    CUR.with(|c| {
+        let (slot, sweep, block, beat, calls) = c.get();
+        if slot == u64::MAX {
+            return;
+        }
+        if calls % 128 == 127 {
+            if let Some(iso) = iso() {
+                slot_write(iso, slot, sweep, block, 1, beat + 1);
+            }
+            c.set((slot, sweep, block, beat + 1, calls + 1));
+        } else {
+            c.set((slot, sweep, block, beat, calls + 1));
+        }
+    });
+}
 /// bisect mode: announce the case about to run (index + text)
 pub fn announce_case(idx: u64, text: &str) {
     if let Some(iso) = iso() {
@@ -232,13 +255,15 @@ where
                         break;
                     }
                     if let Some(iso) = iso() {
-                        beat += 1;
+                        beat += 1_000_000;
                         slot_write(iso, t, sweep, b, 1, beat);
+                        CUR.with(|c| c.set((t, sweep, b, beat, 0)));
                     }
                     f(b, &mut acc);
                     done.fetch_add(1, Ordering::Relaxed);
                 }
                 if let Some(iso) = iso() {
+                    CUR.with(|c| c.set((u64::MAX, 0, 0, 0, 0)));
                     slot_write(iso, t, sweep, 0, 0, beat + 1);
                 }
                 acc
@@ -269,6 +294,7 @@ where
             if announcing {
                 announce_case(i, s);
             }
+            heartbeat();
             f(s, acc)
         });
     });
@@ -320,6 +346,7 @@ impl Ch {
 pub fn explore<F: FnMut(&mut Ch)>(budget: usize, run: &mut F) -> (u64, u64) {
     fn rec<F: FnMut(&mut Ch)>(prefix: Vec<u32>, budget: usize, run: &mut F, cases: &mut u64, trans: &mut u64) {
         let mut ch = Ch::new(&prefix);
+        heartbeat();
         run(&mut ch);
         assert!(ch.consumed_prefix(), "choice replay divergence: model consumed fewer choices than the prefix holds");
         *cases += 1;
